@@ -19,6 +19,7 @@ class World:
             self.x = optyx.Variable('x', lb=0, ub=BOUNDS[0][0])
             self.y = optyx.Variable('y', lb=0, ub=BOUNDS[0][1])
             self.z = optyx.Variable('z', lb=0, ub=3, domain='integer')
+            self.a = optyx.Variable('a', lb=-1, ub=6)       # sorts before x and y (z sorts after them)
             x, y, z, p = self.x, self.y, self.z, self.p
             self.objs = {
                 1: x + 2 * y,
@@ -26,6 +27,8 @@ class World:
                 3: (x - 3) ** 2 + (y - 1) ** 2,
                 4: optyx.exp(x - 2) + (y - p) ** 2 - x,
                 5: x + 2 * y + z,
+                6: (x - 3) ** 2 + (y - 1) ** 2 + (self.a - 1) ** 2,
+                8: optyx.exp(-p) * x + 2 * y,
             }
             self.u = optyx.Variable('u', lb=-1, ub=6)        # occurs only in constraint 13
             self.cons = {11: x + y >= 1, 12: x * x + y * y >= 1 + p, 13: x + self.u >= 2.5}
@@ -34,6 +37,7 @@ class World:
             self.v = optyx.VectorVariable('v', 2, lb=0, ub=BOUNDS[0][0])
             self.v[1].ub = BOUNDS[0][1]
             self.z = optyx.Variable('z', lb=0, ub=3, domain='integer')
+            self.a = optyx.Variable('a0', lb=-1, ub=6)      # sorts before v[0] (z sorts after)
             v, z, p = self.v, self.z, self.p
             self.objs = {
                 1: np.array([1.0, 2.0]) @ v,
@@ -41,6 +45,8 @@ class World:
                 3: (v - np.array([3.0, 1.0])).dot(v - np.array([3.0, 1.0])),
                 4: optyx.exp(v[0] - 2) + (v[1] - p) ** 2 - v[0],
                 5: v.sum() + v[1] + z,
+                6: (v - np.array([3.0, 1.0])).dot(v - np.array([3.0, 1.0])) + (self.a - 1) ** 2,
+                8: optyx.exp(-p) * v[0] + 2 * v[1],
             }
             self.u = optyx.Variable('a', lb=-1, ub=6)        # occurs only in constraint 13; sorts before v
             self.cons = {11: v.sum() >= 1, 12: v.dot(v) >= 1 + p, 13: v[0] + self.u >= 2.5}
